@@ -116,10 +116,13 @@ func (e *Engine) threadEnabled(st *State, ti int) (ok bool, nalts int, special s
 // enabled lists the scheduling options of st in canonical order.
 func (e *Engine) enabled(st *State) []option {
 	var opts []option
-	var quiescers, sleepers []int
+	var quiescers, idleQuiescers, sleepers []int
 	for ti := range st.Threads {
 		ok, n, sp := e.threadEnabled(st, ti)
 		switch sp {
+		case "quiesce-idle":
+			idleQuiescers = append(idleQuiescers, ti)
+			continue
 		case "quiesce":
 			quiescers = append(quiescers, ti)
 			continue
@@ -145,6 +148,18 @@ func (e *Engine) enabled(st *State) []option {
 			opts = append(opts, option{ti: -1, timer: i})
 		}
 	}
+	if nonSleep == 0 && len(idleQuiescers) > 0 {
+		// vrt.QuiesceIdle: pollers that have looked again since anyone else moved count as quiescent
+		idle := true
+		for _, ti := range sleepers {
+			if th := st.Threads[ti]; th.OthersStepped || !th.HasSlept {
+				idle = false
+			}
+		}
+		if idle && !e.hasArmedTimer(st) {
+			return []option{{ti: idleQuiescers[0], what: "quiesce"}}
+		}
+	}
 	for _, ti := range sleepers {
 		th := st.Threads[ti]
 		if th.OthersStepped || nonSleep == 0 {
@@ -155,6 +170,9 @@ func (e *Engine) enabled(st *State) []option {
 		// nothing but (possibly) timers can move: quiescence
 		if len(quiescers) > 0 {
 			return []option{{ti: quiescers[0], what: "quiesce"}}
+		}
+		if len(idleQuiescers) > 0 {
+			return []option{{ti: idleQuiescers[0], what: "quiesce"}}
 		}
 	}
 	return opts
@@ -523,4 +541,16 @@ func (e *Engine) checkLivelock(g *stateGraph) {
 			return
 		}
 	}
+}
+
+func (e *Engine) hasArmedTimer(st *State) bool {
+	if e.Cfg.ManualTimers {
+		return false
+	}
+	for _, tm := range st.Timers {
+		if tm.Armed {
+			return true
+		}
+	}
+	return false
 }
